@@ -682,3 +682,36 @@ func H_AmmJoin_KeepsAccountedPool() {
 	vrf.Cover("join-ok")
 	s.check("amm join")
 }
+
+// ---- the feeders' external-liquidity message on a pool that has perpetual positions (C01) ----
+
+// MsgFeedMultipleExternalLiquidity from an active price feeder rewrites the pool's asset records (the external
+// liquidity ratios): the reserves in those records stay the amounts the pool really holds, also when the accounted
+// balance (reserve + perpetual liabilities - custody) differs from them.
+//
+//vrf:cover fed
+//vrf:bound oracle pool with symbolic perpetual aggregates (accounted != amm balance); one feed naming both assets with symbolic external amounts, depth 0.19
+func H_ExternalLiquidityFeed_KeepsReserves() {
+	s := setup()
+	env, ctx := s.env, s.env.Ctx
+	env.Aprof.SetEntry(ctx, aptypes.Entry{BaseDenom: ptypes.BaseCurrency, Denom: usdc, Decimals: 6, DisplayName: "USDC", CommitEnabled: true, WithdrawEnabled: true})
+	env.Aprof.SetEntry(ctx, aptypes.Entry{BaseDenom: atom, Denom: atom, Decimals: 6, DisplayName: "ATOM", CommitEnabled: true, WithdrawEnabled: true})
+	feeder := sdk.AccAddress([]byte("feeder______________"))
+	env.Oracle.SetPriceFeeder(ctx, otypes.PriceFeeder{Feeder: feeder.String(), IsActive: true})
+	ea, eu := vrf.Dec("externalAtom"), vrf.Dec("externalUsdc")
+	vrf.Assume(ea.IsPositive())
+	vrf.Assume(eu.IsPositive())
+	depth := sdkmath.LegacyNewDecWithPrec(19, 2)
+	srv := ammkeeper.NewMsgServerImpl(*env.Amm)
+	_, err := srv.FeedMultipleExternalLiquidity(ctx, &ammtypes.MsgFeedMultipleExternalLiquidity{Sender: feeder.String(), Liquidity: []ammtypes.ExternalLiquidity{{PoolId: 1,
+		AmountDepthInfo: []ammtypes.AssetAmountDepth{{Asset: "ATOM", Amount: ea, Depth: depth}, {Asset: "USDC", Amount: eu, Depth: depth}}}}})
+	if err != nil {
+		return
+	}
+	vrf.Cover("fed")
+	for _, d := range []string{atom, usdc} {
+		dl, _ := env.Amm.GetDenomLiquidity(ctx, d)
+		vrf.Assert(dl.Liquidity.Equal(s.bal[d]), "C01 external liquidity feed: DenomLiquidity untouched ("+d+")")
+	}
+	s.check("external liquidity feed")
+}
